@@ -43,6 +43,7 @@ const (
 	ErrDotOperatorNotSupported = "the dot operator is not supported for type '%s'"
 	ErrPropertyNotFound        = "property '%s' not found in type '%s'"
 	ErrDivisionByZero          = "division by zero error. The right-hand side of the division operator must not be zero"
+	ErrEachStmtNotArray        = "cannot iterate over type '%s' in the each statement, an ARRAY is expected"
 
 	// Functions
 	ErrNoFuncForThisType  = "function '%s' doesn't exist for type '%s'"
